@@ -13,6 +13,8 @@ ODD = ['cycle', 'ctxcycle', 'selfcause', 'deep', 'deepctx', 'badstr', 'badrepr',
 
 
 def po(x):
+    if isinstance(x, list) and x[0] == 'first_only':
+        x = x[1]
     x = x[0] if isinstance(x, list) else x
     return 'Perr' if x.startswith('error_odd:') else PO[x]
 
